@@ -156,7 +156,7 @@ var_opt_union<T, A> var_opt_union<T, A>::deserialize(std::istream& is, const Ser
     if (!is.good())
       throw std::runtime_error("error reading from std::istream"); 
     else
-      return var_opt_union(max_k);
+      return var_opt_union(max_k, allocator);
   }
 
   const auto items_seen = read<uint64_t>(is);
@@ -197,7 +197,7 @@ var_opt_union<T, A> var_opt_union<T, A>::deserialize(const void* bytes, size_t s
   bool is_empty = flags & EMPTY_FLAG_MASK;
 
   if (is_empty) {
-    return var_opt_union(max_k);
+    return var_opt_union(max_k, allocator);
   }
 
   ensure_minimum_memory(size, PREAMBLE_LONGS_NON_EMPTY << 3);
